@@ -127,6 +127,25 @@ Children(h) == {cont[h].el[i].id : i \in {j \in 1..Len(cont[h].el) : cont[h].el[
 Iter(h) == /\ Children(h) # {}
            /\ live' = (live \ UNION {Sub(c) : c \in Children(h)}) \cup Children(h)
            /\ UNCHANGED <<cont, nextVid, nextId>> /\ Keep /\ H(<<"n.iter", h>>)
+\* ---- mutable iteration over h that MUTATES every child array it meets, inside the iteration callback (C13: "mutating a nested
+\* container during mutable iteration ... does not skip or repeat elements"; C10: the handle comes from the mutable iterator):
+\* each child array gets one more scalar of size sz - children may outgrow the inline limit and be moved out of the parent's slab
+\* while the iterator is standing on them.  Element ids are assigned by child number (the iteration order of a map parent is
+\* not known to this model): pairs <<child, new element id>>.
+RECURSIVE SetSeq(_)
+SetSeq(Q) == IF Q = {} THEN <<>> ELSE LET x == CHOOSE y \in Q : \A z \in Q : y <= z IN <<x>> \o SetSeq(Q \ {x})
+ChildArrays(h) == {c \in Children(h) : cont[c].kind = "A" /\ Len(cont[c].el) < MaxE}
+IterMut(h, sz) ==
+  /\ ChildArrays(h) # {}
+  /\ LET cs == SetSeq(ChildArrays(h))
+         pairs == [i \in 1..Len(cs) |-> <<cs[i], nextId + i - 1>>] IN
+     /\ cont' = [v \in 1..MaxC |-> IF v \in ChildArrays(h)
+                                    THEN [cont[v] EXCEPT !.el = Append(@, S(nextId + (CHOOSE i \in 1..Len(cs) : cs[i] = v) - 1, sz, 0))]
+                                    ELSE cont[v]]
+     /\ nextId' = nextId + Len(cs)
+     /\ H(<<"n.itermut", h, sz, pairs>>)
+  /\ live' = (live \ UNION {Sub(c) : c \in Children(h)}) \cup Children(h)
+  /\ UNCHANGED nextVid /\ Keep
 SetType(h, ti) == /\ cont[h].ti # ti /\ cont' = [cont EXCEPT ![h].ti = ti]       \* ti = 0: the type the container was created with
                   /\ UNCHANGED <<live, nextVid, nextId>> /\ Keep /\ H(<<"n.settype", h, ti>>)
 \* ---- requests that must be rejected (C18), through any live handle at any depth: an index beyond the end of an array (with a
@@ -171,6 +190,7 @@ Next ==
   \/ Rejects /\ Rare(4) /\ \E h \in live, what \in {"mget", "mrem"}, k \in 1..NKeys : RejM(h, what, k)
   \/ Rejects /\ Rare(4) /\ \E h \in live, what \in {"set", "ins"}, kd \in Kinds : RejAC(h, what, kd)
   \/ Rare(3) /\ \E h \in live : Iter(h)
+  \/ Rare(3) /\ \E h \in live, sz \in Sizes : IterMut(h, sz)
   \/ Rare(5) /\ \E h \in live, ti \in Types : SetType(h, ti)
   \/ Rare(9) /\ \E h \in live : Pop(h)
   \/ Rare(4) /\ ((\E m \in {"det", "nondet"}, w \in {1, 3} : Commit(m, w)) \/ Drop \/ Crash)
